@@ -101,3 +101,56 @@ package parse
 // the deferred recovery: if a panic was recovered, the named result err is set (non-nil)
 //@ func parseString$1
 //@   ensures [panic-becomes-error] ghost("recovered") ==> err != nil
+
+// ---- C08: recorded source locations
+
+// Position, text and bounds of a token / rule context are fixed properties of the object.
+//@ func iface:github.com/antlr/antlr4/runtime/Go/antlr.Token.GetLine
+//@   trusted
+//@   deterministic
+//@ func iface:github.com/antlr/antlr4/runtime/Go/antlr.Token.GetColumn
+//@   trusted
+//@   deterministic
+//@ func iface:github.com/antlr/antlr4/runtime/Go/antlr.Token.GetText
+//@   trusted
+//@   deterministic
+//@ func iface:github.com/antlr/antlr4/runtime/Go/antlr.ParserRuleContext.GetStart
+//@   trusted
+//@   deterministic
+//@ func iface:github.com/antlr/antlr4/runtime/Go/antlr.ParserRuleContext.GetStop
+//@   trusted
+//@   deterministic
+
+//@ spec tokBefore(a iface, b iface) bool = a.GetLine() < b.GetLine() || (a.GetLine() == b.GetLine() && a.GetColumn() <= b.GetColumn())
+//@ spec locIs(sc ref, start iface, end iface) bool = sc != nil && sc.Start != nil && sc.End != nil && sc.Start.Line == start.GetLine() - 1 && sc.Start.Col == start.GetColumn() && sc.End.Line == end.GetLine() - 1 && sc.End.Col == end.GetColumn() + len(end.GetText())
+
+// ANTLR lines are 1-based, columns 0-based; recorded locations are 0-based in both, the end lies after the last
+// token's text, and an end token not before the start token gives an end not before the start.
+//@ func (*sourceCtxHelper).get
+//@   pure
+//@   requires start != nil && end != nil
+//@   ensures [file] result != nil && fresh(result) && result.File == s.filename && result.Version == s.version
+//@   ensures [position] locIs(result, start, end) && fresh(result.Start) && fresh(result.End)
+//@   ensures [zero-based] start.GetLine() >= 1 && start.GetColumn() >= 0 ==> result.Start.Line >= 0 && result.Start.Col >= 0
+//@   ensures [end-not-before-start] tokBefore(start, end) ==> result.End.Line > result.Start.Line || (result.End.Line == result.Start.Line && result.End.Col >= result.Start.Col)
+
+//@ func (*TreeShapeListener).getSrcCtxFor
+//@   requires start != nil && end != nil
+//@   modifies s.lastEnd
+//@   ensures [position] locIs(result, start, end) && result.File == s.sc.filename && result.Version == s.sc.version
+//@   ensures [last-end] s.lastEnd == result.End
+
+//@ func (*TreeShapeListener).getSrcCtx
+//@   requires ctx != nil && ctx.GetStart() != nil && ctx.GetStop() != nil
+//@   modifies s.lastEnd
+//@   ensures [position] locIs(result, ctx.GetStart(), ctx.GetStop()) && result.File == s.sc.filename
+//@   ensures [last-end] s.lastEnd == result.End
+
+// Every declaration callback that records a location records the location of its own rule context (start line and
+// column of the rule's first token, whatever the HTTP verb / type kind), and a re-declaration appends exactly one
+// location, which is the one just recorded.
+//@ spec ownStart(sc ref, ctx ref) bool = sc != nil && sc.Start != nil && sc.Start.Line == asiface("antlr.ParserRuleContext", ctx.BaseParserRuleContext).GetStart().GetLine() - 1 && sc.Start.Col == asiface("antlr.ParserRuleContext", ctx.BaseParserRuleContext).GetStart().GetColumn()
+//@ func (*TreeShapeListener).Enter%
+//@   requires ctx != nil && ctx.BaseParserRuleContext != nil
+//@   assert @store:F.sysl.%.SourceContext [location-is-own-rule-start] ownStart(stored, ctx)
+//@   assert @store:F.sysl.%.SourceContexts [one-location-appended] len(stored) == len(target.SourceContexts) + 1 && ownStart(stored[len(stored)-1], ctx)
